@@ -314,3 +314,20 @@ def model_init(self: 'Model', top_variable: 'str', top_role: 'str', concept_role
     ensures(all(self.dereifications[c] == [(r, s, t) for r, c2, s, t in (reifications or []) if c2 == c]
                 for c in self.dereifications), label='dereifications-in-definition-order')
     ensures(sorted(self.reifications) == sorted({r for r, c, s, t in (reifications or [])}), label='all-roles')
+
+
+# ---- the error report (C16), stated on the real function and executed natively -------------------------
+
+@spec(uninterpreted=True, native="importlib.import_module('vlib.pyvc.natives').errors(self, graph)")
+def report_of(self: 'Model', graph: 'val') -> 'val':
+    """the report property C16 describes: invalid role / unreachable per triple, empty / top messages"""
+
+
+@contract('penman.model:Model.errors@functional', bounded=True,
+          why='defaultdict(list), dict comprehension of sets in _dfs, while loop over a work list')
+def model_errors_report(self: 'Model', graph: 'Graph') -> 'dict':
+    ensures(result == report_of(self, graph), label='report')
+    # "graph is empty" / the top messages exactly when they apply
+    ensures((None in result and 'graph is empty' in result[None]) == (len(graph.triples) == 0), label='empty')
+    ensures(all(('invalid role' in result.get(t, [])) == (not self.has_role(t[1])) for t in graph.triples),
+            label='invalid-role')
